@@ -195,5 +195,58 @@ class NfNamesStream(base.FileStream):
         out["dep5_ascii"] = ascii(out.get("dep5"))
         return out
 
+# --------------------------------------------------------------------------
+#: names with control characters in them (line feed, carriage return, tab; at the start, inside, at the very end; in file names and in
+#: directory names) — a dep5 `*` covers every character (python-debian compiles its globs DOTALL), so must what it is converted to
+CTRL_PLAIN = ["a.txt", "b.md", "src/a.c", "src/lib/d.h", "docs/x.md", "docs/img/y.png", "data/1.json", "README", "lib/plain.h"]
+CTRL_NAMES = ["docs/release\nnotes.txt", "docs/tail.md\n", "src/a\rb.c", "src/tab\there.c", "line\nfeed/inner.txt", "data/two\n\nlines.json",
+              "new\nline.md", "docs/img/cr\r\nlf.png", "lib/\nlead.h", "a\nb/c\nd/e.txt", "src/lib/x\ny.h", "\ttab-first.txt", "data/sub\n/2.json",
+              "docs/\n", "cr\rdir/plain.txt"]
+CTRL_GLOBS = ["*", "*", "docs/*", "docs/*.txt", "docs/*.md", "src/*", "src/*.c", "src/lib/*", "*.md", "*.txt", "data/*.json", "data/*", "docs/img/*.png",
+              "docs/img/*", "lib/*", "lib/*.h", "d*", "l*", "a*", "li*", "*e.txt", "*.json", "*.h", "n*", "c*", "src/a*", "docs/r*s.txt", "**.png",
+              "README", "a.txt", "src/a.c"]
 
-STREAMS = [ExprStream(), NfNamesStream()]
+
+class CtrlNamesStream(base.FileStream):
+    name = "ctrlnames"
+    TREE = CTRL_PLAIN + CTRL_NAMES
+    rule = ("generated .reuse/dep5 files over a tree of %d files of which %d have a control character in their path — a line feed inside a "
+            "file name, as its first character, as its last character, as the whole name, twice in a row, CR LF, a lone carriage "
+            "return, a tab (inside / first), in a directory name at depth 1 and 2, at the end of a directory name, in two components "
+            "at once: 1-5 Files paragraphs of 1-3 patterns from 31 wildcard shapes (`*`, `dir/*`, `dir/*.ext`, `*.ext`, `x*`, "
+            "`dir/r*s.txt` …; a Files field cannot spell such a name literally, so a wildcard is the only way to "
+            "cover it), each paragraph with its own holder and licence, 0-3 files with own information of four kinds; fixed: `*` "
+            "alone; `*` + one `dir/*` per directory; ours / theirs / ours nested; `reuse lint --json` before and after `reuse "
+            "convert-dep5` compared modulo the source name; no model; non-trivial = conversion succeeded and at least two files are "
+            "attributed by different paragraphs") % (len(TREE), len(CTRL_NAMES))
+
+    def cases(self, tier, rng):
+        us = {"c": ["2020 Jane Doe"], "l": "MIT", "comment": False}
+        them = {"c": ["2019 Vendor Inc."], "l": "0BSD", "comment": False}
+        yield {"paras": [dict(us, g=["*"])], "own": []}
+        for k, d in enumerate(["docs/*", "src/*", "data/*", "lib/*", "l*", "a*", "*.txt", "*.md", "docs/img/*", "c*"]):
+            yield {"paras": [dict(us, g=["*"]), dict(them, g=[d])] + ([dict(us, g=["src/lib/*", "*.json"])] if k % 2 else []), "own": [["src/a.c"], []][k % 2]}
+            if tier == "thorough" or k % 3 == 0:
+                yield {"paras": [dict(them, g=[d])], "own": []}
+        for _ in range(120 if tier == "thorough" else 10):
+            paras = []
+            for k in range(rng.randint(1, 5)):
+                paras.append({"g": rng.sample(CTRL_GLOBS, rng.randint(1, 3)), "c": ["%d Holder %d" % (rng.randint(1990, 2024), k)], "l": rng.choice(self.LIC),
+                              "comment": rng.random() < 0.2})
+            own = rng.sample(self.TREE, rng.randint(0, 3))
+            yield {"paras": paras, "own": own, "own_kinds": {f: rng.choice(self.OWN_KINDS) for f in own}}
+
+    def nontrivial(self, case, impl_out):
+        if impl_out.startswith("EXC"):
+            return None
+        import json
+        r = json.loads(impl_out)
+        return (tuple(g for p in case["paras"] for g in p["g"]), r.get("distinct")) if r.get("toml") and r.get("distinct", 0) >= 2 else None
+
+    def show(self, case):
+        out = base.FileStream.show(self, case)
+        out["tree_ascii"] = [ascii(f) for f in self.TREE]
+        return out
+
+
+STREAMS = [ExprStream(), NfNamesStream(), CtrlNamesStream()]
